@@ -26,7 +26,10 @@ class PolynomialKernelGrad(PolynomialKernel):
     ) -> torch.Tensor:
         offset = self.offset.view(*self.batch_shape, 1, 1)
 
-        batch_shape = x1.shape[:-2]
+        # the kernel's own batch shape may exceed that of the inputs (e.g. batched hyper-parameters, shared inputs)
+        batch_shape = torch.broadcast_shapes(x1.shape[:-2], x2.shape[:-2], self.batch_shape)
+        x1 = x1.expand(*batch_shape, *x1.shape[-2:])
+        x2 = x2.expand(*batch_shape, *x2.shape[-2:])
         n1, d = x1.shape[-2:]
         n2 = x2.shape[-2]
 
